@@ -388,7 +388,7 @@ OPS = {"elastic": ["E", "v", "planeStress", "thickness", "rho", "damping", "tran
 
 
 NON_NOTIFYING = ("bc", "bc_add", "weld", "hinge")
-OWN_ONLY = ("rho", "damping", "newmesh", "set_iter")  # operations on simulation 1 that leave a second simulation sharing its model / mesh untouched
+OWN_ONLY = ("rho", "rhofield", "damping", "newmesh", "set_iter")  # operations on simulation 1 that leave a second simulation sharing its model / mesh untouched
 
 
 def group_level_tail(ops, i=0, sim=""):
